@@ -184,7 +184,7 @@ class C20(Check):
                     cases.append({"part": "B", "pb": 2, "ferr": fe, "aerr": ae, "ops": [{"op": "send", "i": 0, "n": 5, "o": o1}, {"op": "send", "i": 1, "n": 5, "o": 4}, {"op": "send", "i": 2, "n": 3, "o": 0},
                                                                                           {"op": "flush", "outs": []}, {"op": "flush", "outs": []}]})
         # the Lean regression witness `raceActs` (former finding C20-R1) replayed on the real code: the sender thread's fatal
-        # error is interleaved at the log call between Connection.send's `disconnected`/`sending` tests and its deferred enqueue
+        # error is interleaved at the entry of DeferredSender.send, between Connection.send's `disconnected`/`sending` tests and its deferred enqueue
         cases.append({"part": "B", "pb": 512, "ops": [{"op": "send", "i": 0, "n": 1, "o": 3}, {"op": "send_raced", "i": 1, "n": 1, "outs": [4]},
                                                         {"op": "flush", "outs": [{"o": "accept", "k": 1}]}, {"op": "flush", "outs": []}]})
         cases += self._corpus_m()
@@ -462,14 +462,20 @@ class C20(Check):
                 elif op["op"] == "send_raced":
                     d = data(op["i"], op["n"])
                     if not con.disconnected: queued += d
-                    real_debug = of_01.log.debug
-                    def hook(msg, *a, **k):
-                        if msg == "deferred sender is sending!":       # the point between the flag read and the enqueue
-                            of_01.log.debug = real_debug
-                            iteration([con], op["outs"])
-                    of_01.log.debug = hook
+                    # the point between Connection.send's read of the `sending` flag and the (locked) enqueue: the entry of the
+                    # deferred sender's send() — intercepted on the sender OBJECT, not through a log line of the code under test
+                    ds_now = of_01.deferredSender
+                    real_send = ds_now.send
+                    def hook(*a, **k):
+                        try: del ds_now.send                            # one shot: restore the class's method
+                        except AttributeError: pass
+                        iteration([con], op["outs"])
+                        return real_send(*a, **k)
+                    ds_now.send = hook
                     try: con.send(d)
-                    finally: of_01.log.debug = real_debug
+                    finally:
+                        try: del ds_now.send
+                        except AttributeError: pass
                 elif op["op"] == "flush":
                     iteration([con], op["outs"])
                 elif op["op"] == "envenq":
